@@ -136,7 +136,7 @@ func genAsmLit(r *Rng) any {
 	case 6:
 		return niceFloat(r)
 	case 7, 8:
-		return r.Pick([]string{"", "a", "b", "ab", "abc", "1", "x y"})
+		return r.Pick([]string{"", "a", "b", "ab", "abc", "1", "x y", "$5.00", "@home"})
 	case 9:
 		return []any{int64(r.Intn(4)), int64(r.Intn(4)), int64(r.Intn(4))}
 	case 10:
@@ -318,6 +318,20 @@ func genAsmTyped(r *Rng, depth int, inEach bool, want string) *AArg {
 		}
 		return call(r, fn, args...)
 	case 8:
+		if r.Chance(50) {
+			// a path built at run time from data: [get [at src <string from the data>]]
+			name := "root"
+			first := "src"
+			if inEach || r.Chance(30) {
+				name = "at"
+			}
+			key := &AArg{Kind: "p", Path: []Frag{{Kind: "R"}, {Kind: "c", Key: "src"}, {Kind: "c", Key: "s"}}}
+			if inEach {
+				key = &AArg{Kind: "p", Path: []Frag{{Kind: "A"}, {Kind: "c", Key: "src"}}}
+			}
+			pa := &AArg{Kind: "c", Fn: "", Name: name, Args: []*AArg{{Kind: "l", Lit: first}, key}}
+			return &AArg{Kind: "c", Fn: "", Name: r.Pick([]string{"get", "getall"}), Args: []*AArg{pa}}
+		}
 		return call(r, "quote", &AArg{Kind: "l", Lit: genAsmLit(r)})
 	case 9:
 		return call(r, "asm", sub("any"), sub("any"))
@@ -405,6 +419,7 @@ func genAsmStmt(r *Rng, depth int, inEach bool) *AArg {
 type asmCase struct {
 	stmts []*AArg
 	root  map[string]any
+	root2 map[string]any // another root for the same plan
 }
 
 func (c *asmCase) planGo(copyWrap bool) []any {
@@ -543,11 +558,11 @@ func suiteAsm(tier string, seed uint64, model string) *Report {
 	fixed := r.Fork()
 	// directed: aliasing, literal mutation, first argument of the order tests, cond values
 	cases = append(cases,
-		&asmCase{[]*AArg{call(fixed, "set", path(R, C("asm")), path(R, C("src"))), call(fixed, "set", path(R, C("asm"), C("y")), lit(int64(1)))}, map[string]any{"src": map[string]any{"x": int64(1)}}},
-		&asmCase{[]*AArg{call(fixed, "set", path(R, C("asm")), lit(map[string]any{"a": int64(1)})), call(fixed, "set", path(R, C("asm"), C("n")), call(fixed, "size", path(R, C("asm"))))}, map[string]any{"src": nil}},
-		&asmCase{[]*AArg{call(fixed, "set", path(R, C("asm"), C("a")), &AArg{Kind: "c", Fn: "lt", Name: "lt", Args: []*AArg{path(R, C("src"), C("x")), lit(int64(3))}})}, map[string]any{"src": map[string]any{"x": int64(1)}}},
-		&asmCase{[]*AArg{call(fixed, "set", path(R, C("asm"), C("a")), &AArg{Kind: "c", Fn: "gte", Name: ">=", Args: []*AArg{call(fixed, "sum", lit(int64(1)), lit(int64(1))), lit(int64(2))}})}, map[string]any{"src": nil}},
-		&asmCase{[]*AArg{call(fixed, "set", path(R, C("asm"), C("a")), call(fixed, "cond", &AArg{Kind: "c", Fn: "list", Name: "list", Args: []*AArg{lit(true), lit([]any{int64(1), int64(2)})}}))}, map[string]any{"src": nil}},
+		&asmCase{[]*AArg{call(fixed, "set", path(R, C("asm")), path(R, C("src"))), call(fixed, "set", path(R, C("asm"), C("y")), lit(int64(1)))}, map[string]any{"src": map[string]any{"x": int64(1)}}, nil},
+		&asmCase{[]*AArg{call(fixed, "set", path(R, C("asm")), lit(map[string]any{"a": int64(1)})), call(fixed, "set", path(R, C("asm"), C("n")), call(fixed, "size", path(R, C("asm"))))}, map[string]any{"src": nil}, nil},
+		&asmCase{[]*AArg{call(fixed, "set", path(R, C("asm"), C("a")), &AArg{Kind: "c", Fn: "lt", Name: "lt", Args: []*AArg{path(R, C("src"), C("x")), lit(int64(3))}})}, map[string]any{"src": map[string]any{"x": int64(1)}}, nil},
+		&asmCase{[]*AArg{call(fixed, "set", path(R, C("asm"), C("a")), &AArg{Kind: "c", Fn: "gte", Name: ">=", Args: []*AArg{call(fixed, "sum", lit(int64(1)), lit(int64(1))), lit(int64(2))}})}, map[string]any{"src": nil}, nil},
+		&asmCase{[]*AArg{call(fixed, "set", path(R, C("asm"), C("a")), call(fixed, "cond", &AArg{Kind: "c", Fn: "list", Name: "list", Args: []*AArg{lit(true), lit([]any{int64(1), int64(2)})}}))}, map[string]any{"src": nil}, nil},
 	)
 	for i := 0; i < n; i++ {
 		ns := 1 + r.Intn(4)
@@ -555,7 +570,7 @@ func suiteAsm(tier string, seed uint64, model string) *Report {
 		for j := 0; j < ns; j++ {
 			c.stmts = append(c.stmts, genAsmStmt(r, 1+r.Intn(3), false))
 		}
-		src := map[string]any{"l": []any{int64(r.Intn(5)), int64(r.Intn(5)), int64(r.Intn(5))}, "n": int64(r.Intn(9) - 2), "t": r.Bool(), "s": r.Pick([]string{"", "a", "zz"})}
+		src := map[string]any{"l": []any{int64(r.Intn(5)), int64(r.Intn(5)), int64(r.Intn(5))}, "n": int64(r.Intn(9) - 2), "t": r.Bool(), "s": r.Pick([]string{"", "a", "zz", "n", "l"})}
 		for _, k := range asmKeys {
 			if r.Chance(60) {
 				src[k] = genTree(r, 1+r.Intn(2))
@@ -565,6 +580,15 @@ func suiteAsm(tier string, seed uint64, model string) *Report {
 			src["a"] = []any{map[string]any{"a": int64(1), "b": "x"}, map[string]any{"a": int64(2)}, int64(3)}
 		}
 		c.root = map[string]any{"src": src}
+		if r.Chance(50) {
+			src2 := map[string]any{"l": []any{int64(r.Intn(5)), int64(7), int64(r.Intn(5))}, "n": int64(r.Intn(9) - 2), "t": r.Bool(), "s": r.Pick([]string{"l", "n", "zz"})}
+			for _, k := range asmKeys {
+				if r.Chance(60) {
+					src2[k] = genTree(r, 1+r.Intn(2))
+				}
+			}
+			c.root2 = map[string]any{"src": src2}
+		}
 		if r.Chance(30) {
 			c.root["asm"] = map[string]any{}
 		}
@@ -602,6 +626,7 @@ func suiteAsm(tier string, seed uint64, model string) *Report {
 		ans[i] = got1[j]
 	}
 	distinct := map[string]bool{}
+	timeouts := 0
 	for i, c := range cases {
 		desc := strings.TrimPrefix(reqs[i], "asm\t")
 		rep.Evaluations++
@@ -624,6 +649,14 @@ func suiteAsm(tier string, seed uint64, model string) *Report {
 		default:
 			rep.Count("outcome:" + got[:1])
 			rep.Add(Disagreement{Case: desc, Where: "Plan.Execute", Kind: "impl-law:panic-or-timeout", Impl: got, Model: "completes or returns an error"})
+			if got[0] == 'T' {
+				timeouts++
+				if timeouts >= 3 {
+					rep.Notes = map[string]string{"stopped": "three plans did not terminate within 10 s; the run was cut short"}
+					rep.Distinct = len(distinct)
+					return rep
+				}
+			}
 			continue
 		}
 		// model
@@ -658,6 +691,22 @@ func suiteAsm(tier string, seed uint64, model string) *Report {
 				}
 			}
 			rep.Add(Disagreement{Case: desc, Where: "Plan.Execute", Kind: "impl-law:second-run-differs", Impl: got3, Model: got, Class: cl, Detail: "the same Plan executed a second time on an equal root"})
+		}
+		// the same Plan on another root behaves like a fresh plan on that root
+		if c.root2 != nil {
+			fresh2, _ := runPlan(asm.NewPlan(c.planGo(false)), c.root2)
+			used2, _ := runPlan(plan, c.root2)
+			if used2 != fresh2 {
+				cl := ""
+				p5 := asm.NewPlan(c.planGo(true))
+				runPlan(p5, c.root)
+				a, _ := runPlan(p5, c.root2)
+				b, _ := runPlan(asm.NewPlan(c.planGo(true)), c.root2)
+				if a == b {
+					cl = "stored-without-copy"
+				}
+				rep.Add(Disagreement{Case: desc, Where: "Plan.Execute", Kind: "impl-law:second-run-differs", Impl: used2, Model: fresh2, Class: cl, Detail: "the Plan had been executed on " + Show(c.root) + " before; second root " + Show(c.root2)})
+			}
 		}
 		// String() and Simplify() rebuild a plan with the same behaviour
 		if simp, ok := plan2(c).Simplify().([]any); ok {
